@@ -21,12 +21,23 @@ func init() { log.SetOutput(io.Discard) }
 type Case struct {
 	Prog    *kgen.Program `json:"prog"`
 	GPUType string        `json:"gpu_type"` // "r9nano" or "mi300a"
+	// timing configuration knobs (0 = shipped value)
+	CUPerSA int `json:"cu_per_sa,omitempty"`
+	SAs     int `json:"shader_arrays,omitempty"`
+	L2KB    int `json:"l2_kb,omitempty"`
+	Banks   int `json:"mem_banks,omitempty"`
 }
 
 func genCase(t *rapid.T) Case {
 	var c Case
 	c.GPUType = rapid.SampledFrom([]string{"r9nano", "r9nano", "mi300a"}).Draw(t, "gputype")
 	c.Prog = kgen.GenProgram(t, kgen.GenOpts{MaxItems: 1536, MaxOps: 24, LDS: true, Partial: true})
+	if rapid.Bool().Draw(t, "knobs") {
+		c.CUPerSA = rapid.SampledFrom([]int{0, 1, 2, 4}).Draw(t, "cupersa")
+		c.SAs = rapid.SampledFrom([]int{0, 1, 2, 4, 16}).Draw(t, "sas")
+		c.L2KB = rapid.SampledFrom([]int{0, 0, 16, 64, 256}).Draw(t, "l2kb")
+		c.Banks = rapid.SampledFrom([]int{0, 0, 1, 4, 16}).Draw(t, "banks")
+	}
 	return c
 }
 
@@ -85,7 +96,10 @@ func RunCase(c Case) (res stats.Result) {
 
 	exp := p.Eval()
 	emu := runOn(plat.Spec{NumGPUs: 1}, p, comp)
-	tim := runOn(plat.Spec{Timing: true, GPUType: c.GPUType, NumGPUs: 1}, p, comp)
+	tim := runOn(plat.Spec{Timing: true, GPUType: c.GPUType, NumGPUs: 1, CUPerSA: c.CUPerSA, SAs: c.SAs, L2KB: c.L2KB, Banks: c.Banks}, p, comp)
+	if c.CUPerSA != 0 || c.SAs != 0 || c.L2KB != 0 || c.Banks != 0 {
+		res.Labels = append(res.Labels, "non-default-timing-knobs")
+	}
 	if emu.err != nil && tim.err != nil {
 		// both modes reject the program the same way: not a transparency issue;
 		// the emulator's own conformance is property C03's business
@@ -158,7 +172,9 @@ func TestPropKernels(t *testing.T) {
 		if r.Violation != "" && !(r.KnownID != "" && stats.KnownActive(r.KnownID)) {
 			// program-level shrinking (much faster than shrinking the draw sequence)
 			c.Prog = kgen.Shrink(c.Prog, 150, func(q *kgen.Program) bool {
-				rr := RunCase(Case{Prog: q, GPUType: c.GPUType})
+				cc := c
+				cc.Prog = q
+				rr := RunCase(cc)
 				return rr.Violation != "" && rr.KnownID == r.KnownID
 			})
 			r = RunCase(c)
